@@ -84,6 +84,26 @@ End C03.
 Definition C03_at_R := C03_cubic_point_bern NumR NumR_ok.
 Definition C03_at_Q := C03_cubic_point_bern NumQ NumQ_ok.
 
+(* over the reals: derivative(t, n) IS the n-th derivative of t |-> point(t)
+   (Coquelicot's is_derive_n, component by component), for every n >= 1 *)
+From SVP Require Proofs.BezierAnalytic.
+Theorem C03_deriv_analytic_cubic : forall s c1 c2 e t n d, (1 <= n)%Z ->
+    cubic_deriv NumR s c1 c2 e t n = Some d ->
+    Coquelicot.Derive.is_derive_n (fun u => fst (cubic_point NumR s c1 c2 e u)) (Z.to_nat n) t (fst d)
+    /\ Coquelicot.Derive.is_derive_n (fun u => snd (cubic_point NumR s c1 c2 e u)) (Z.to_nat n) t (snd d).
+Proof. exact Proofs.BezierAnalytic.cubic_deriv_analytic. Qed.
+Theorem C03_deriv_analytic_quad : forall s c e t n d, (1 <= n)%Z ->
+    quad_deriv NumR s c e t n = Some d ->
+    Coquelicot.Derive.is_derive_n (fun u => fst (quad_point NumR s c e u)) (Z.to_nat n) t (fst d)
+    /\ Coquelicot.Derive.is_derive_n (fun u => snd (quad_point NumR s c e u)) (Z.to_nat n) t (snd d).
+Proof. exact Proofs.BezierAnalytic.quad_deriv_analytic. Qed.
+Theorem C03_deriv_analytic_line : forall s e t n d, (1 <= n)%Z ->
+    line_deriv NumR s e t n = Some d ->
+    Coquelicot.Derive.is_derive_n (fun u => fst (line_point NumR s e u)) (Z.to_nat n) t (fst d)
+    /\ Coquelicot.Derive.is_derive_n (fun u => snd (line_point NumR s e u)) (Z.to_nat n) t (snd d).
+Proof. exact Proofs.BezierAnalytic.line_deriv_analytic. Qed.
+Print Assumptions C03_deriv_analytic_cubic.
+
 Print Assumptions C03_line_point_bern.
 Print Assumptions C03_quad_point_bern.
 Print Assumptions C03_cubic_point_bern.
